@@ -144,7 +144,14 @@ def search(chk, n_cases):
                 s = oqupy.TimeDependentSystemWithField(lambda t, a: h0 + 0.2 * (a.real) * sz, gammas=[lambda t: 0.1], lindblad_operators=[lambda t: sm])
                 mfs = oqupy.MeanFieldSystem([s], field_eom=lambda t, st, a: -0.2 * a + 0.3 * np.trace(st[0] @ sm))
                 dyn = quiet(oqupy.MeanFieldTempo(mfs, [bath], par, [rho0], 0.2 + 0j, 0.0).compute, n * dt, progress_type="silent")
-                states = dyn.system_dynamics[0].states
+                states = list(dyn.system_dynamics[0].states)
+                # ... and the same mean-field system (dissipative, complex Hamiltonian) through its process-tensor route: the states of
+                # both routes are reported states
+                ptm_ = quiet(oqupy.pt_tempo_compute, bath, 0.0, n * dt, parameters=par, unique=unique, progress_type="silent")
+                dyn2 = quiet(oqupy.compute_dynamics_with_field, mfs, 0.2 + 0j, process_tensor_list=[ptm_], initial_state_list=[rho0], start_time=0.0,
+                             subdiv_limit=None, progress_type="silent")
+                states += list(dyn2.system_dynamics[0].states)
+                info["routes"] = ["MeanFieldTempo", "compute_dynamics_with_field"]
             elif method == "gibbs":
                 if T == 0.0:
                     continue
